@@ -25,8 +25,8 @@ def build_genc_campaign(tier, sd):
     cp = campaign.Campaign("genc", tier)
     fam = cp.meta["families"]
     for c in directed.charts():
-        if c.max_delay() > 0:
-            continue       # the scaffold has no timer
+        if c.max_delay() > 0 or c.arrays:
+            continue       # the scaffold has no timer and no <foreach> support
         cid = cp.add_chart(c)
         c.tags.append("D:" + c.name)
         ws = families.words(c, 2)
@@ -70,6 +70,8 @@ def build_genc_campaign(tier, sd):
     n0 = len(cp.charts)
     for i in range(nrand):
         c = rc.chart()
+        if c.arrays:
+            continue
         cid = cp.add_chart(c)
         cp.add_cases(cid, ["lua"], [rc.word(c) for _ in range(3)], modes=("drip",) if i % 3 else ("drip", "preload"))
     # big charts: state / transition bit arrays cross byte boundaries
